@@ -36,8 +36,14 @@ def splitPattern (ext : SplitExt) (text : Bytes) : SplitPattern → Option Range
   | .char c =>
     let needle := encodeChar c
     some ((findAll needle text).map fun a => (a, a + needle.length))
-  | .string s => some ((findAll s text).map fun a => (a, a + s.length))
+  | .string s =>
+    -- after the F15 repair: only matches on character boundaries (matters for the empty pattern)
+    some (((findAll s text).filter (isBoundary text)).map fun a => (a, a + s.length))
   | .regex p => ext.findIter p text
+
+/-- `split_pattern` for a string before the F15 repair: an empty pattern matched inside characters. -/
+def splitPatternStringOld (text : Bytes) (s : Bytes) : Ranges :=
+  (findAll s text).map fun a => (a, a + s.length)
 
 /-- `split_pattern` for a character before the repair: multi-byte characters gave 1-byte matches. -/
 def splitPatternCharOld (text : Bytes) (c : Char) : Ranges :=
